@@ -643,4 +643,85 @@ theorem vinv_run (s : State) (ops : List Op) (hops : ∀ op ∈ ops, Op.keepsLas
   | cons op r ih =>
     exact ih _ (fun x hx => hops x (List.mem_cons_of_mem _ hx)) (vinv_step s op (hops op List.mem_cons_self) hV)
 
+/-! ## what an accepted claim needs, and what makes an attestation observed -/
+
+theorem claim_ok (s : State) (w i n h : Nat) (k : Kind) (hok : (claimStep s w i n h k).2 = .ok) :
+    ∃ a orc, s.byBridger.get (voter w i) = some a ∧ s.oracles.get a = some orc ∧ orc.online = true ∧
+      n = effLast s a + 1 ∧ validateBasic w i = true ∧ logicCheck s k = true ∧
+      (claimStep s w i n h k).1 = attest s a n h k := by
+  unfold claimStep at hok ⊢
+  repeat' split at hok
+  all_goals first | (simp at hok; done) | skip
+  rename_i hvb _ a hga _ orc hgo hon hlc hct
+  refine ⟨a, orc, hga, hgo, ?_, ?_, ?_, ?_, ?_⟩
+  · simpa [claimRequiresOnline] using hon
+  · simpa [attestChecksContiguity] using hct
+  · simpa using hvb
+  · simpa using hlc
+  · simp [hvb, hon, hlc, hct]
+
+theorem claim_not_ok (s : State) (w i n h : Nat) (k : Kind) (hne : (claimStep s w i n h k).2 ≠ .ok) :
+    (claimStep s w i n h k).1 = s := by
+  unfold claimStep at hne ⊢
+  repeat' split
+  all_goals first | rfl | skip
+  all_goals simp_all
+
+theorem attest_lastNonce (s : State) (o n h : Nat) (kind : Kind) : (attest s o n h kind).lastNonce = s.lastNonce.set o n := by
+  unfold attest
+  simp only []
+  split
+  · cases ht : tally s.oracles (required s.lastTotalPower) (voteAtt s o n h).votes 0
+    · rw [tryAttest_false _ _ _ (by simpa using ht)]
+    · obtain ⟨_, _, _, _, _, h6, _⟩ := tryAttest_true { s with atts := setAtt s.atts (voteAtt s o n h) } (voteAtt s o n h) kind (by simpa using ht)
+      simp at h6; simp [h6]
+  · rfl
+
+theorem observed_attest (s : State) (o n h : Nat) (kind : Kind) (a' : Att) (ha : a' ∈ (attest s o n h kind).atts)
+    (hob : a'.observed = true) :
+    (∃ b ∈ s.atts, b.observed = true ∧ b.nonce = a'.nonce ∧ b.hash = a'.hash) ∨
+    (a'.nonce = n ∧ a'.hash = h ∧ a'.votes = (voteAtt s o n h).votes ∧ n = s.lastObserved + 1 ∧
+      (voteAtt s o n h).observed = false ∧
+      required s.lastTotalPower ≤ votePower s.oracles a'.votes) := by
+  have hk := voteAtt_key s o n h
+  have old : ∀ x ∈ setAtt s.atts (voteAtt s o n h), x.observed = true →
+      ∃ b ∈ s.atts, b.observed = true ∧ b.nonce = x.nonce ∧ b.hash = x.hash := by
+    intro x hx hxo
+    rcases mem_setAtt hx with h1 | h1
+    · subst h1
+      obtain ⟨b, hb, hbo, hbn, hbh⟩ := voteAtt_observed s o n h hxo
+      exact ⟨b, hb, hbo, by rw [hk.1, hbn], by rw [hk.2, hbh]⟩
+    · exact ⟨x, h1, hxo, rfl, rfl⟩
+  unfold attest at ha
+  simp only [] at ha
+  split at ha
+  · rename_i hc
+    cases ht : tally s.oracles (required s.lastTotalPower) (voteAtt s o n h).votes 0
+    · rw [tryAttest_false _ _ _ (by simpa using ht)] at ha
+      exact Or.inl (old a' ha hob)
+    · obtain ⟨_, h2, _⟩ := tryAttest_true { s with atts := setAtt s.atts (voteAtt s o n h) } (voteAtt s o n h) kind (by simpa using ht)
+      rw [h2] at ha
+      rcases mem_setAtt (mem_prune ha) with h1 | h1
+      · right
+        simp [tallyCond, tallyRequiresNextNonce, tallyRequiresNotObserved] at hc
+        have := tally_ge _ _ _ _ ht
+        subst h1
+        refine ⟨hk.1, hk.2, rfl, hc.2, hc.1.2, ?_⟩
+        simpa using this
+      · exact Or.inl (old a' h1 hob)
+  · exact Or.inl (old a' ha hob)
+
+/-! ## distinct voters -/
+
+def dedup : List Nat → List Nat
+  | [] => []
+  | v :: vs => if v ∈ vs then dedup vs else v :: dedup vs
+
+theorem dedup_of_nodup {l : List Nat} (h : l.Nodup) : dedup l = l := by
+  induction l with
+  | nil => rfl
+  | cons v r ih =>
+    rw [List.nodup_cons] at h
+    simp [dedup, h.1, ih h.2]
+
 end FxVerif.Proofs.C01
